@@ -10,9 +10,9 @@
 // case -1: <default body>; default: <the original select> (pass-through) }; time.Sleep -> vsched.Sleep;
 // sync.Mutex / RWMutex / Once -> vsched types. With -points a vsched.Point("fn:<pkg>.<name>") is
 // inserted at the entry of every function of the hand-written packages. With -antlr the mutex.go of
-// the ANTLR runtime is replaced as well. A construct the rewriter does not know (sync.Cond,
-// sync.WaitGroup, sync/atomic, reflect.Select, range over a channel, other time functions) aborts
-// with exit status 2.
+// the ANTLR runtime is replaced as well. sync.WaitGroup, time.After / Now / Since are mapped to scheduler-aware equivalents; sync/atomic needs no
+// rewriting. A construct the rewriter does not know (sync.Cond, reflect.Select, timers and tickers) aborts with
+// exit status 2.
 package main
 
 import (
@@ -117,9 +117,9 @@ func rewriteFile(path, pkgLabel string, points bool, syncOnly bool) ([]byte, sta
 			timeName = name
 		case "sync":
 			syncName = name
-		case "sync/atomic":
-			die("%s imports sync/atomic: not modelled by the scheduler", path)
 		}
+		// sync/atomic needs no rewriting: under the cooperative scheduler atomic operations are plain
+		// (sequentially consistent) memory operations
 	}
 	// pre-pass: remember the original text of every select and mark its communication clauses
 	ast.Inspect(af, func(n ast.Node) bool {
@@ -190,13 +190,22 @@ func rewriteFile(path, pkgLabel string, points bool, syncOnly bool) ([]byte, sta
 				case "Sleep":
 					c.Replace(sel("Sleep"))
 					st.Sleep++
-				case "After", "AfterFunc", "NewTimer", "NewTicker", "Tick":
+				case "After":
+					c.Replace(sel("After"))
+					st.Sleep++
+				case "Now":
+					c.Replace(sel("NowTime"))
+					st.Sleep++
+				case "Since":
+					c.Replace(sel("Since"))
+					st.Sleep++
+				case "AfterFunc", "NewTimer", "NewTicker", "Tick":
 					die("%s uses time.%s: not modelled by the scheduler", path, n.Sel.Name)
 				}
 			}
 			if syncName != "" && id.Name == syncName {
 				switch n.Sel.Name {
-				case "Mutex", "RWMutex", "Once":
+				case "Mutex", "RWMutex", "Once", "WaitGroup":
 					c.Replace(sel(n.Sel.Name))
 					st.Sync++
 				default:
